@@ -7,14 +7,11 @@ The model of the code (`GN.Require.Eval`: four caches, "insert before the body r
 the same observable log as the cache-free reference semantics (`GN.Require.Ideal`), loader-call events aside:
 `cache_transparent`.
 
-Assumptions of the main theorem, stated precisely:
-* `NoFuelErr (idealHistory t calls).log`: the *reference* run reports no exhausted fuel (the code never needs more
-  fuel than the reference semantics: a cache hit costs nothing);
-* `AliasOK t`: if `x` is a core module that is not overridden by a native module and `x` does not start with
-  `node:`, then `node:` ++ `x` is not itself a registered name (registry-native, global-native or core).
-  This is necessary: `loadNative` writes the alias `node:x` into the native cache unconditionally, so a module
-  registered as `node:x` is shadowed once `x` was required (`alias_counterexample`).  It holds in particular when
-  no registered name carries the prefix (`AliasOK_of_unprefixed`).
+The only assumption of the main theorem is `NoFuelErr (idealHistory t calls).log`: the *reference* run reports no
+exhausted fuel (the code never needs more fuel than the reference semantics: a cache hit costs nothing).
+No condition on the tree is needed: `loadNative` writes the alias `node:x` of a core module `x` only when no module
+is registered under the name `node:x` itself (before that repair, a module registered as `node:x` was shadowed once
+`x` had been required; `alias_regression` replays that history).
 
 Route: a simulation relation `R` (equal file cache / exports / ids / filtered log; the native cache is the image of
 the reference instances under `nativeOf`, up to the lazily created `node:` alias; every entry of the two request
@@ -145,35 +142,11 @@ def Missing (t : Tree) (c : Path) : Prop := alookup t.file c = none ∧ t.loadEr
 def Hit (t : Tree) (mods : List (Path × Nat)) (cands : List Path) (id : Nat) : Prop :=
   ∃ pre f post, cands = pre ++ f :: post ∧ (∀ c ∈ pre, Missing t c) ∧ alookup mods f = some id
 
-/-- the alias `node:x` written when the core module `x` is loaded must mean that core module -/
-def AliasOK (t : Tree) : Prop :=
-  ∀ x ∈ t.core, x.startsWith pre = false → t.regNative.contains x = false → t.globNative.contains x = false →
-    t.regNative.contains (pre ++ x) = false ∧ t.globNative.contains (pre ++ x) = false ∧
-      t.core.contains (pre ++ x) = false
-
-instance (t : Tree) : Decidable (AliasOK t) := by unfold AliasOK; infer_instance
-
-/-- `AliasOK` holds in particular when no registered name carries the `node:` prefix -/
-theorem AliasOK_of_unprefixed (t : Tree)
-    (h : ∀ x, x ∈ t.regNative ∨ x ∈ t.globNative ∨ x ∈ t.core → x.startsWith pre = false) : AliasOK t := by
-  intro x _ _ _ _
-  have hp := startsWith_pre_append x
-  refine ⟨?_, ?_, ?_⟩
-  · cases hc : t.regNative.contains (pre ++ x) with
-    | false => rfl
-    | true => rw [h _ (.inl (by simpa using hc))] at hp; cases hp
-  · cases hc : t.globNative.contains (pre ++ x) with
-    | false => rfl
-    | true => rw [h _ (.inr (.inl (by simpa using hc)))] at hp; cases hp
-  · cases hc : t.core.contains (pre ++ x) with
-    | false => rfl
-    | true => rw [h _ (.inr (.inr (by simpa using hc)))] at hp; cases hp
-
-theorem AliasOK.nativeOf {t : Tree} (h : AliasOK t) (x : String) (hc : t.core.contains x = true)
-    (hp : x.startsWith pre = false) (hr : t.regNative.contains x = false) (hg : t.globNative.contains x = false) :
+/-- `node:x` means the core module `x` when nothing is registered under the name `node:x` itself -/
+theorem nativeOf_alias {t : Tree} (x : String) (hc : t.core.contains x = true)
+    (h1 : t.regNative.contains (pre ++ x) = false) (h2 : t.globNative.contains (pre ++ x) = false)
+    (h3 : t.core.contains (pre ++ x) = false) :
     nativeOf t (pre ++ x) = .inl (some ("C", x)) := by
-  have hx : x ∈ t.core := by simpa using hc
-  obtain ⟨h1, h2, h3⟩ := h x hx hp hr hg
   rcases nativeOf_cases t (pre ++ x) with c | c | c | c | c | c
   · simp_all
   · simp_all
@@ -220,7 +193,8 @@ theorem loadNative_unfold (t : Tree) (st : St) (path : String) : loadNative t st
     else if t.globNative.contains path then
       (({ st with next := st.next + 1, native := ainsert st.native path st.next }).emit (.native "G" path st.next), .found st.next)
     else if t.core.contains path then
-      if path.startsWith pre then
+      if path.startsWith pre || t.regNative.contains (pre ++ path) || t.globNative.contains (pre ++ path)
+          || t.core.contains (pre ++ path) then
         (({ st with next := st.next + 1, native := ainsert st.native path st.next }).emit (.native "C" path st.next), .found st.next)
       else
         (({ st with next := st.next + 1, native := ainsert (ainsert st.native path st.next) (pre ++ path) st.next }).emit (.native "C" path st.next), .found st.next)
@@ -242,10 +216,14 @@ theorem loadNative_unfold (t : Tree) (st : St) (path : String) : loadNative t st
     simp only []
     cases t.regNative.contains path <;> cases t.globNative.contains path <;> cases t.core.contains path <;>
       cases path.startsWith Generated.nodePrefix <;> try (simp [List.foldl]; done)
-    cases t.core.contains (path.drop Generated.nodePrefix.length).toString <;>
-      cases t.regNative.contains (path.drop Generated.nodePrefix.length).toString <;>
-      cases t.globNative.contains (path.drop Generated.nodePrefix.length).toString <;>
-      cases alookup st.native (path.drop Generated.nodePrefix.length).toString <;> simp [List.foldl]
+    all_goals first
+      | (cases t.regNative.contains (Generated.nodePrefix ++ path) <;>
+          cases t.globNative.contains (Generated.nodePrefix ++ path) <;>
+          cases t.core.contains (Generated.nodePrefix ++ path) <;> simp [List.foldl]; done)
+      | (cases t.core.contains (path.drop Generated.nodePrefix.length).toString <;>
+          cases t.regNative.contains (path.drop Generated.nodePrefix.length).toString <;>
+          cases t.globNative.contains (path.drop Generated.nodePrefix.length).toString <;>
+          cases alookup st.native (path.drop Generated.nodePrefix.length).toString <;> simp [List.foldl])
 
 theorem filter_emit (log : List Ev) (e : Ev) (he : e.isLoad = false) :
     (log ++ [e]).filter (fun e => !e.isLoad) = log.filter (fun e => !e.isLoad) ++ [e] := by
@@ -388,7 +366,7 @@ theorem nativeOf_C_inv {t : Tree} {n x : String} (h : nativeOf t n = .inl (some 
   · rw [h] at d; simp at d
   · rw [h] at d; simp at d
 
-theorem native_sim_some {t : Tree} {st : St} {ist : ISt} (hA : AliasOK t) (h : R t st ist) (name : String)
+theorem native_sim_some {t : Tree} {st : St} {ist : ISt} (h : R t st ist) (name : String)
     (l : String × String) (hno : nativeOf t name = .inl (some l)) :
     ∃ st' ist' id, loadNative t st name = (st', .found id) ∧ idealNative t ist name = (ist', some (.found id)) ∧
       R t st' ist' ∧ Ext ist ist' := by
@@ -449,8 +427,12 @@ theorem native_sim_some {t : Tree} {st : St} {ist : ISt} (hA : AliasOK t) (h : R
         · exact .inl d.1
         · right; refine ⟨d.1, ?_, ?_, d.2⟩ <;> rw [d.2] <;> assumption
       simp only [c0, c1, c3, if_true, Bool.false_eq_true, if_false]
-      cases hp : name.startsWith pre
-      · simp only [Bool.false_eq_true, if_false]
+      cases hal : (name.startsWith pre || t.regNative.contains (pre ++ name) || t.globNative.contains (pre ++ name)
+          || t.core.contains (pre ++ name))
+      · have hal' := hal
+        simp only [Bool.or_eq_false_iff] at hal'
+        obtain ⟨⟨⟨hp, a1⟩, a2⟩, a3⟩ := hal'
+        simp only [Bool.false_eq_true, if_false]
         refine ⟨_, _, _, rfl, idealNative_create hno w0, ?_, Ext_create _ _ _⟩
         refine R_create h _ (fun n => name == n || (pre ++ name) == n) _ _ ?_ ?_ w0 ?_ ?_
         · rfl
@@ -460,7 +442,7 @@ theorem native_sim_some {t : Tree} {st : St} {ist : ISt} (hA : AliasOK t) (h : R
           simp only [Bool.or_eq_true, beq_iff_eq] at hn'
           rcases hn' with e | e
           · subst e; exact hno
-          · subst e; exact hA.nativeOf name c3 hp c0 c1
+          · subst e; exact nativeOf_alias name c3 a1 a2 a3
         · intro n hn'
           rcases hw2 n hn' with d | d
           · left; simp [d]
@@ -1019,7 +1001,7 @@ theorem search_sim {t : Tree} {n : Nat} (hL : LoadSim t n) {st : St} {ist : ISt}
     | none => exact ⟨rfl, h2⟩
     | err e => exact ⟨rfl, h2⟩
 
-theorem res_sim {t : Tree} {n : Nat} (hA : AliasOK t) (hL : LoadSim t n) : ResSim t (n + 1) := by
+theorem res_sim {t : Tree} {n : Nat} (hL : LoadSim t n) : ResSim t (n + 1) := by
   intro st ist d s hR
   rw [resolve, idealResolve]
   simp only [loadAsFileOrDirectory_eq, loadNodeModules_eq]
@@ -1044,7 +1026,7 @@ theorem res_sim {t : Tree} {n : Nat} (hA : AliasOK t) (hL : LoadSim t n) : ResSi
     | inl o =>
       cases o with
       | some l =>
-        obtain ⟨st', ist', id, h1, h2, h3, _⟩ := native_sim_some hA hR s l hno
+        obtain ⟨st', ist', id, h1, h2, h3, _⟩ := native_sim_some hR s l hno
         rw [h1, h2]
         right; right; exact ⟨rfl, h3⟩
       | none =>
@@ -1219,14 +1201,14 @@ theorem load_sim {t : Tree} {n : Nat} (hB : BodySim t n) : LoadSim t (n + 1) := 
                   hR.log]
             · simp [ISt.emit, alookup_ainsert]
 
-theorem sim_all {t : Tree} (hA : AliasOK t) (n : Nat) : LoadSim t n ∧ BodySim t n ∧ ResSim t n := by
+theorem sim_all (t : Tree) (n : Nat) : LoadSim t n ∧ BodySim t n ∧ ResSim t n := by
   induction n with
   | zero =>
     refine ⟨fun st ist p _ => ?_, fun st ist d self body _ => ?_, fun st ist d s _ => ?_⟩
     · rw [loadModule, idealLoad]; left; rfl
     · rw [runBody, idealBody]; left; rfl
     · rw [resolve, idealResolve]; left; rfl
-  | succ n ih => exact ⟨load_sim ih.2.1, body_sim ih.2.1 ih.2.2, res_sim hA ih.1⟩
+  | succ n ih => exact ⟨load_sim ih.2.1, body_sim ih.2.1 ih.2.2, res_sim ih.1⟩
 
 theorem Ext_idealTop (t : Tree) (ist : ISt) (c : TopCall) : Ext ist (idealTop t ist c) := by
   unfold idealTop
@@ -1242,7 +1224,7 @@ theorem Ext_idealHistory (t : Tree) (calls : List TopCall) (ist : ISt) :
   | nil => exact Ext.refl _
   | cons c cs ih => exact (Ext_idealTop t ist c).trans (ih _)
 
-theorem top_sim {t : Tree} (hA : AliasOK t) {st : St} {ist : ISt} (hR : R t st ist) (c : TopCall) :
+theorem top_sim {t : Tree} {st : St} {ist : ISt} (hR : R t st ist) (c : TopCall) :
     FuelLogged (idealTop t ist c).log ∨ R t (runTop t st c) (idealTop t ist c) := by
   rcases c with ⟨script, sp⟩
   have key : ∀ curDir : Path,
@@ -1259,7 +1241,7 @@ theorem top_sim {t : Tree} (hA : AliasOK t) {st : St} {ist : ISt} (hR : R t st i
         | (st, .err e) => st.emit (.topErr e)
         | (st, .none) => st.emit (.topErr .invalidModule)) := by
     intro curDir
-    have h1 := (sim_all hA topFuel).2.2 st ist curDir sp hR
+    have h1 := (sim_all t topFuel).2.2 st ist curDir sp hR
     rcases hc : resolve t topFuel st curDir sp with ⟨st1, r1⟩
     rcases hi : idealResolve t topFuel ist curDir sp with ⟨ist1, r1'⟩
     rw [hc, hi] at h1
@@ -1284,14 +1266,14 @@ theorem top_sim {t : Tree} (hA : AliasOK t) {st : St} {ist : ISt} (hR : R t st i
   | none => exact key "."
   | some s => exact key (dir s)
 
-theorem hist_sim {t : Tree} (hA : AliasOK t) (calls : List TopCall) {st : St} {ist : ISt} (hR : R t st ist) :
+theorem hist_sim {t : Tree} (calls : List TopCall) {st : St} {ist : ISt} (hR : R t st ist) :
     FuelLogged (calls.foldl (idealTop t) ist).log ∨
       R t (calls.foldl (runTop t) st) (calls.foldl (idealTop t) ist) := by
   induction calls generalizing st ist with
   | nil => exact .inr hR
   | cons c cs ih =>
     simp only [List.foldl_cons]
-    rcases top_sim hA hR c with h | h
+    rcases top_sim hR c with h | h
     · exact .inl (h.ext (Ext_idealHistory t cs _))
     · exact ih h
 
@@ -1303,12 +1285,11 @@ def NoFuelErr (log : List Ev) : Prop :=
   ∀ e ∈ log, e ≠ .topErr .outOfFuel ∧ ∀ s, e ≠ .caught s .outOfFuel
 
 /-- **Cache transparency**: with its four caches, the code produces exactly the observable log of the cache-free
-reference semantics (loader-call events aside, which the reference semantics does not have), provided the
-registration tables do not give the alias `node:x` of an (un-overridden) core module `x` another meaning. -/
-theorem cache_transparent (t : Tree) (calls : List TopCall) (hA : AliasOK t)
+reference semantics (loader-call events aside, which the reference semantics does not have). -/
+theorem cache_transparent (t : Tree) (calls : List TopCall)
     (hfuel : NoFuelErr (idealHistory t calls).log) :
     (runHistory t calls).log.filter (fun e => !e.isLoad) = (idealHistory t calls).log := by
-  rcases hist_sim hA calls (R_init t) with h | h
+  rcases hist_sim calls (R_init t) with h | h
   · obtain ⟨e, he, h'⟩ := h
     have := hfuel e he
     rcases h' with h' | ⟨s, h'⟩
@@ -1316,24 +1297,22 @@ theorem cache_transparent (t : Tree) (calls : List TopCall) (hA : AliasOK t)
     · exact absurd h' (this.2 s)
   · exact h.log
 
-/-! ### `AliasOK` cannot be dropped -/
+/-! ### regression: a native module registered under the alias name of a core module -/
 
 namespace CacheCex
 deriving instance DecidableEq for Ev
 end CacheCex
 
-/-- the tree of the counterexample: core module `fs`, and a registry-native module registered as `node:fs` -/
+/-- core module `fs`, and a registry-native module registered as `node:fs` -/
 def aliasCexTree : Tree :=
   { file := [], loadErr := [], pkgMain := [], globalFolders := [], regNative := ["node:fs"], globNative := [],
     core := ["fs"] }
 
-/-- without `AliasOK` the logs differ: after `require("fs")`, `require("node:fs")` yields the core instance again
-in the code (the alias `node:fs` written by the first call shadows the native module registered under that name),
-but the native module's own instance in the reference semantics. -/
-theorem alias_counterexample :
-    ¬ AliasOK aliasCexTree ∧
+/-- the history on which the code used to differ from the reference semantics (`require("fs")` made `node:fs` an
+alias of the core module although a native module is registered under that name): both logs, explicitly -/
+theorem alias_regression :
     (runHistory aliasCexTree [⟨none, "fs"⟩, ⟨none, "node:fs"⟩]).log.filter (fun e => !e.isLoad) =
-      [.native "C" "fs" 0, .top 0 none [], .top 0 none []] ∧
+      [.native "C" "fs" 0, .top 0 none [], .native "R" "node:fs" 1, .top 1 none []] ∧
     (idealHistory aliasCexTree [⟨none, "fs"⟩, ⟨none, "node:fs"⟩]).log =
       [.native "C" "fs" 0, .top 0 none [], .native "R" "node:fs" 1, .top 1 none []] := by
   decide +kernel
